@@ -2,6 +2,7 @@ package main
 
 import (
 	"fmt"
+	"go/token"
 	"go/types"
 	"sort"
 	"strings"
@@ -190,9 +191,44 @@ func (w *World) loopHead(fr *Frame, st *State, h *ssa.BasicBlock, k int) {
 		na := w.sc.fresh("$alloc~", SInt)
 		st.heap[allocKey] = na
 		w.sc.assume(le(oa, na))
+		inLoop := map[*ssa.BasicBlock]bool{}
+		for _, b := range fr.loops.body[h] {
+			inLoop[b] = true
+		}
+		assigned := map[cellID]bool{}
+		for _, c := range cells {
+			assigned[c] = true
+		}
 		for _, key := range keys {
-			if _, ok := w.heapSort[key]; ok {
-				w.havocKey(st, key)
+			if _, ok := w.heapSort[key]; !ok {
+				continue
+			}
+			idxSort, _, isArr := arrayParts(w.heapSort[key])
+			precise := isArr && idxSort == SInt && !w.loopWhole[key]
+			var targets []Term
+			if precise {
+				for _, lt := range w.loopTargets[key] {
+					t, ok := w.loopInvariantTerm(fr, st, lt.v, inLoop, assigned)
+					if !ok {
+						precise = false
+						break
+					}
+					if lt.viaSlice {
+						t = sarr(t)
+					}
+					targets = append(targets, t)
+				}
+			}
+			prev := w.hget(st, key)
+			nw := w.havocKey(st, key)
+			if precise {
+				var except []Term
+				q := Term{"lf!", SInt}
+				for _, t := range targets {
+					except = append(except, eq(q, t))
+				}
+				guard := and(le(q, oa), not(or(except...)))
+				w.sc.assume(Term{fmt.Sprintf("(forall ((lf! Int)) (! (=> %s (= (select %s lf!) (select %s lf!))) :pattern ((select %s lf!))))", guard.S, nw.S, prev.S, nw.S), SBool})
 			}
 		}
 		for _, key := range ls.Modifies {
@@ -214,14 +250,50 @@ func (w *World) loopHead(fr *Frame, st *State, h *ssa.BasicBlock, k int) {
 	}
 }
 
+// loopInvariantTerm resolves an SSA value used inside a loop to a term that
+// denotes the same value at the loop head (when the value cannot change in
+// the loop).
+func (w *World) loopInvariantTerm(fr *Frame, st *State, v ssa.Value, inLoop map[*ssa.BasicBlock]bool, assigned map[cellID]bool) (Term, bool) {
+	switch x := v.(type) {
+	case *ssa.Parameter, *ssa.FreeVar, *ssa.Const, *ssa.Function, *ssa.Global:
+		if val, ok := fr.vals[v]; ok && val.T.S != "" {
+			return val.T, true
+		}
+		if _, isConst := v.(*ssa.Const); isConst {
+			return w.constVal(v.(*ssa.Const)).T, true
+		}
+		return Term{}, false
+	case *ssa.UnOp:
+		if x.Op == token.MUL {
+			if a, ok := x.X.(*ssa.Alloc); ok && !a.Heap {
+				id := cellID{fr.id, a}
+				if cur, live := st.cells[id]; live && !assigned[id] {
+					return cur, true
+				}
+			}
+		}
+	}
+	if ins, ok := v.(ssa.Instruction); ok && ins.Block() != nil && !inLoop[ins.Block()] {
+		if val, ok := fr.vals[v]; ok && val.T.S != "" {
+			return val.T, true
+		}
+	}
+	return Term{}, false
+}
+
 func (w *World) loopStep(fr *Frame, st *State, h *ssa.BasicBlock, k int) {
 	if !fr.top {
 		return
 	}
 	ls := w.loopSpec(fr, k)
+	w.callOrd[fmt.Sprintf("loopstep:%d", k)]++
+	ord := ""
+	if n := w.callOrd[fmt.Sprintf("loopstep:%d", k)]; n > 1 {
+		ord = fmt.Sprint(n)
+	}
 	for _, inv := range ls.Invariants {
 		env := w.contractEnv(fr, st, fr.entry)
-		w.oblige("loop.step", fmt.Sprintf("loop%d.step.%s", k, inv.Label), st.cond, w.evalBool(env, inv.Expr), inv.Star, fr.contract.Props)
+		w.oblige("loop.step", fmt.Sprintf("loop%d.step%s.%s", k, ord, inv.Label), st.cond, w.evalBool(env, inv.Expr), inv.Star, fr.contract.Props)
 	}
 }
 
@@ -249,7 +321,28 @@ func allocOf(v ssa.Value) *ssa.Alloc {
 func (w *World) loopWrites(fr *Frame, blocks []*ssa.BasicBlock) (cells []cellID, keys []string, all bool) {
 	seenC := map[cellID]bool{}
 	seenK := map[string]bool{}
+	w.loopTargets = map[string][]loopTarget{}
+	w.loopWhole = map[string]bool{}
 	addKey := func(k string) {
+		if !seenK[k] {
+			seenK[k] = true
+			keys = append(keys, k)
+		}
+		w.loopWhole[k] = true
+	}
+	// addAt records a write to key k at the object designated by v
+	addAt := func(k string, v ssa.Value, viaSlice bool, top bool) {
+		if !seenK[k] {
+			seenK[k] = true
+			keys = append(keys, k)
+		}
+		if !top {
+			w.loopWhole[k] = true
+			return
+		}
+		w.loopTargets[k] = append(w.loopTargets[k], loopTarget{v, viaSlice})
+	}
+	addFresh := func(k string) {
 		if !seenK[k] {
 			seenK[k] = true
 			keys = append(keys, k)
@@ -269,7 +362,7 @@ func (w *World) loopWrites(fr *Frame, blocks []*ssa.BasicBlock) (cells []cellID,
 						}
 					}
 					if t.Heap {
-						w.addAllocKeys(deref(t.Type()), addKey)
+						w.addAllocKeys(deref(t.Type()), addFresh)
 					}
 				case *ssa.Store:
 					if a := allocOf(t.Addr); a != nil && !a.Heap {
@@ -282,21 +375,21 @@ func (w *World) loopWrites(fr *Frame, blocks []*ssa.BasicBlock) (cells []cellID,
 						}
 						continue
 					}
-					w.addStoreKeys(t.Addr, addKey)
+					w.addStoreTargets(t.Addr, addKey, func(k string, v ssa.Value, viaSlice bool) { addAt(k, v, viaSlice, frameID == fr.id) })
 				case *ssa.MapUpdate:
 					mt := t.Map.Type().Underlying().(*types.Map)
 					dk, vk := w.mapKeys(w.sortOf(mt.Key()), w.sortOf(mt.Elem()))
-					addKey(dk)
-					addKey(vk)
-					addKey("MapLen")
+					addAt(dk, t.Map, false, frameID == fr.id)
+					addAt(vk, t.Map, false, frameID == fr.id)
+					addAt("MapLen", t.Map, false, frameID == fr.id)
 				case *ssa.MakeMap:
 					mt := t.Type().Underlying().(*types.Map)
 					dk, vk := w.mapKeys(w.sortOf(mt.Key()), w.sortOf(mt.Elem()))
-					addKey(dk)
-					addKey(vk)
-					addKey("MapLen")
+					addFresh(dk)
+					addFresh(vk)
+					addFresh("MapLen")
 				case *ssa.MakeSlice:
-					addKey(w.elemsKey(w.sortOf(t.Type().Underlying().(*types.Slice).Elem())))
+					addFresh(w.elemsKey(w.sortOf(t.Type().Underlying().(*types.Slice).Elem())))
 				case *ssa.Convert:
 					if w.sortOf(t.Type()) == SSlice && w.sortOf(t.X.Type()) == SString {
 						addKey(w.elemsKey(SInt))
@@ -321,6 +414,41 @@ func (w *World) loopWrites(fr *Frame, blocks []*ssa.BasicBlock) (cells []cellID,
 	}
 	scan(fr.fn, fr.id, blocks, 0)
 	return
+}
+
+// addStoreTargets classifies a store by the object it writes: a field of a
+// pointed-to object or an element of a slice gets a precise target, anything
+// else is recorded as a write to the whole key.
+func (w *World) addStoreTargets(addr ssa.Value, addKey func(string), addAt func(string, ssa.Value, bool)) {
+	switch x := addr.(type) {
+	case *ssa.FieldAddr:
+		root := x
+		for {
+			if p, ok := root.X.(*ssa.FieldAddr); ok {
+				root = p
+				continue
+			}
+			break
+		}
+		if _, ok := root.X.(*ssa.IndexAddr); ok {
+			w.addStoreKeys(addr, addKey)
+			return
+		}
+		addAt(w.fieldKey(deref(root.X.Type()), root.Field), root.X, false)
+	case *ssa.IndexAddr:
+		if t, ok := x.X.Type().Underlying().(*types.Slice); ok {
+			addAt(w.elemsKey(w.sortOf(t.Elem())), x.X, true)
+			return
+		}
+		w.addStoreKeys(addr, addKey)
+	default:
+		w.addStoreKeys(addr, addKey)
+	}
+}
+
+type loopTarget struct {
+	v        ssa.Value
+	viaSlice bool
 }
 
 func (w *World) addAllocKeys(et types.Type, addKey func(string)) {
@@ -386,6 +514,26 @@ func (w *World) callWrites(fr *Frame, fn *ssa.Function, c *ssa.CallCommon, addKe
 			addKey("MapLen")
 		}
 		return
+	}
+	if !c.IsInvoke() && c.StaticCallee() == nil {
+		if cands, closed := storedFunctions(fn, c.Value); closed {
+			for _, cand := range cands {
+				if cct := w.contractFor(cand); cct != nil && !cct.Inline {
+					if cct.ModAll || (!cct.ModStated && cct.Kind == "func") {
+						*all = true
+						return
+					}
+					for _, k := range w.contractKeys(cct, cand) {
+						addKey(k)
+					}
+				} else if cand.Blocks != nil && w.inModule(cand) && depth < 3 {
+					scan(cand, -1, cand.Blocks, depth+1)
+				} else {
+					*all = true
+				}
+			}
+			return
+		}
 	}
 	ct, callee := w.resolveContract(fr, c, nil)
 	if ct != nil && !ct.Inline {
